@@ -111,8 +111,9 @@ def coverage_actions(text):
 def tlc_lines(text, prefix):
     """Lines TLC printed with PrintT(prefix \\o ToJson(..)): each is a TLA+ string literal."""
     out = []
-    for line in text.splitlines():
-        if line.startswith('"' + prefix):
+    # TLC's workers print in no fixed order: sorted, so that seeded sampling downstream is reproducible
+    for line in sorted(l for l in text.splitlines() if l.startswith('"' + prefix)):
+        if True:
             try:
                 s = json.loads(line)
             except json.JSONDecodeError:
@@ -399,11 +400,15 @@ def gen_pipeline(tier, seed):
         cases += fc
         shutil.rmtree(os.path.join(wd, f"md_{f}"), ignore_errors=True)
     # the compiled corpus (real scale-info output) as extra cases; cf unknown -> judged for C02/C03/C10 only
+    # ... under the plain settings (std, codec attributes on, no rules); TLC prints cases in no fixed order, so pick by content
     base = None
-    for c in cases:
-        if c["fam"] == "G1c":
-            base = c["settings"]
+    for c in sorted((c for c in cases if c["fam"] == "G1c"), key=lambda c: json.dumps(c["settings"], sort_keys=True)):
+        st = c["settings"]
+        if st["codec"] and st["alloc_std"] and st["docs"] and not st["subs"] and not st["derive_calls"] and st["has_compact"] and st["has_bits"]:
+            base = st
             break
+    if base is None:
+        raise ToolError("no G1c case with the plain settings")
     for e in corpus:
         if e["name"] == "ALL":
             continue
